@@ -2141,6 +2141,32 @@ pub fn gen_case(rng: &mut Rng, tier: &str, profile: &str, stats: &mut Stats) -> 
         ops.push("hquiet".into());
         return ops;
     }
+    if profile == "C03" && !dual_redirect && !nat_replay && rng.chance(1, 8) {
+        // directed case: a request was answered with a handshake (which got lost); the session that
+        // handshake made is pushed out of a cache of one by a session with somebody else; the request is
+        // retransmitted; a WHOAREYOU for the retransmission is the second one for that request: it
+        // fails the request, it does not get a second handshake
+        stats.bump("gen.cases.directed-second-whoareyou-after-the-session-was-evicted");
+        let x = rng.range(1, 3);
+        let (y, z) = match x { 1 => (2, 3), 2 => (3, 1), _ => (1, 2) };
+        ops.push("hworld 3 2 400 1 86400000".to_string());
+        ops.push(format!("hreq {} {} enr 1 {}", x, y, rng.range(1, 4)));
+        ops.push("hdel next".into());
+        ops.push(format!("hwru {} next known", y));
+        ops.push("hdel next".into());
+        ops.push("hdel skip".into());
+        ops.push(format!("hreq {} {} enr 2 1", x, z));
+        ops.push("hdel next".into());
+        ops.push(format!("hwru {} next known", z));
+        for _ in 0..2 { ops.push("hdel next".into()); }
+        ops.push(format!("hresp {} next auto", z));
+        ops.push("hdel next".into());
+        ops.push("hadv 401".into());
+        ops.push(format!("hcraft whoareyou {} r 0", x));
+        ops.push("hdel last".into());
+        ops.push("hquiet".into());
+        return ops;
+    }
     if profile == "C13" && rng.chance(1, 8) {
         // directed case: a request to a silent peer is about to time out when that peer's own (undecryptable)
         // packet makes this node challenge it; the request's failure releases the request's exemption,
